@@ -157,6 +157,21 @@ func generic(sb *strings.Builder, v reflect.Value, seen map[uintptr]bool, depth 
 		seen[p] = true
 		generic(sb, v.Elem(), seen, depth+1)
 		delete(seen, p)
+		// the order in which the implementation itself walks a map literal (printing and compiling use it)
+		// is part of the tree's meaning although the entries are kept in a Go map
+		if !v.CanInterface() {
+			return
+		}
+		if m, ok := v.Interface().(*ast.Map); ok {
+			sb.WriteString(" entry-order=[")
+			for i, k := range m.OrderedKeys() {
+				if i > 0 {
+					sb.WriteString(" ")
+				}
+				sb.WriteString(strconv.Quote(k.String()))
+			}
+			sb.WriteString("]")
+		}
 	case reflect.Struct:
 		t := v.Type()
 		if t == positionType {
